@@ -143,6 +143,7 @@ func c08(r *lp.Run) {
 	c08Atoms(r)
 	c08Fallback(r)
 	c08EngineAgreement(r, r.Rng.Fork(801))
+	c08Escapes(r)
 	c08Generated(r)
 }
 
